@@ -254,7 +254,8 @@ extern "C" void vf_main(void) {
           vf_assert(vf_nalloc() == nalloc0, "C09: stealing performs no allocation");
         } else {
           vf_witness("element-wise path");
-          if (sizeb <= capa0) vf_assert(vf_nalloc() == nalloc0, "C04: no allocate() when the moved contents fit the existing capacity");
+          // (a propagating unequal allocator must replace the destination's allocator: its buffer cannot be kept - the exception the property lists)
+          if (sizeb <= capa0 && !(POCMA && !IAE && IDA != IDB)) vf_assert(vf_nalloc() == nalloc0, "C04: no allocate() when the moved contents fit the existing capacity");
         }
       }
 #endif
